@@ -128,15 +128,16 @@ type Net struct {
 	active  atomic.Int64 // in-flight deliveries / streams
 	actions atomic.Int64 // counts tap + put + sync events, for settle
 	// SyncScript optionally overrides SyncChain for a (requester, peer address): it returns the channel to hand back.
-	SyncScript func(from *Node, peerAddr string, req *proto.SyncRequest, ctx context.Context) (chan *proto.BeaconPacket, error, bool)
-	extra      map[string]*Node // nodes by address (includes joiners)
-	closed     bool
-	vmu        sync.Mutex
-	vcache     map[string]error
-	pcache     map[string]int
-	tmu        sync.Mutex
-	truth      [][]byte
-	liars      map[string]*LieSpec
+	SyncScript    func(from *Node, peerAddr string, req *proto.SyncRequest, ctx context.Context) (chan *proto.BeaconPacket, error, bool)
+	extra         map[string]*Node // nodes by address (includes joiners)
+	closed        bool
+	vmu           sync.Mutex
+	vcache        map[string]error
+	pcache        map[string]int
+	tmu           sync.Mutex
+	truth         [][]byte
+	liars         map[string]*LieSpec
+	syncDelivered map[string]map[uint64]int64
 	// Corrupt marks members whose outgoing traffic is scripted by the harness (excluded from honest-node oracles).
 	Corrupt map[int]bool
 }
@@ -551,6 +552,7 @@ type memStream struct {
 	ctx    context.Context
 	ch     chan *proto.BeaconPacket
 	n      *Net
+	req    string // requester address
 	mu     sync.RWMutex
 	closed bool
 }
@@ -570,6 +572,8 @@ func (m *memStream) Send(b *proto.BeaconPacket) error {
 	if m.closed {
 		return errors.New("stream closed")
 	}
+	// noted before the hand-off: the receiver may store the beacon before this goroutine runs again
+	m.n.noteSyncDelivery(m.req, b.GetRound())
 	select {
 	case <-m.ctx.Done():
 		return m.ctx.Err()
@@ -604,7 +608,7 @@ func (c *client) SyncChain(ctx context.Context, p dnet.Peer, in *proto.SyncReque
 		}
 	}
 	if spec := n.liar(p.Address()); spec != nil {
-		ch, err := n.lieStream(ctx, spec, in.GetFromRound())
+		ch, err := n.lieStream(ctx, spec, in.GetFromRound(), c.from.Addr)
 		if err != nil {
 			ev.Err = err.Error()
 		}
@@ -630,7 +634,7 @@ func (c *client) SyncChain(ctx context.Context, p dnet.Peer, in *proto.SyncReque
 func (n *Net) ServeSync(ctx context.Context, to *Node, requester string, in *proto.SyncRequest) chan *proto.BeaconPacket {
 	ch := make(chan *proto.BeaconPacket, 16)
 	sctx, cancel := context.WithCancel(peerCtx(ctx, requester))
-	ms := &memStream{ctx: sctx, ch: ch, n: n}
+	ms := &memStream{ctx: sctx, ch: ch, n: n, req: requester}
 	go func() {
 		_ = beacon.SyncChain(to.Log, to.H.Store(), in, ms)
 		cancel()
@@ -638,6 +642,31 @@ func (n *Net) ServeSync(ctx context.Context, to *Node, requester string, in *pro
 		n.actions.Add(1)
 	}()
 	return ch
+}
+
+// noteSyncDelivery records that a beacon of `round` was handed to the requester through a sync stream.
+func (n *Net) noteSyncDelivery(requester string, round uint64) {
+	n.mu.Lock()
+	if n.syncDelivered == nil {
+		n.syncDelivered = map[string]map[uint64]int64{}
+	}
+	m := n.syncDelivered[requester]
+	if m == nil {
+		m = map[uint64]int64{}
+		n.syncDelivered[requester] = m
+	}
+	if _, ok := m[round]; !ok {
+		m[round] = n.seq.Add(1)
+	}
+	n.mu.Unlock()
+}
+
+// SyncedBefore reports whether `round` was delivered to the node at addr through a sync stream before sequence number seq.
+func (n *Net) SyncedBefore(addr string, round uint64, seq int64) bool {
+	n.mu.Lock()
+	defer n.mu.Unlock()
+	s, ok := n.syncDelivered[addr][round]
+	return ok && s < seq
 }
 
 // Head returns the node's last stored round (through the handler's store stack).
@@ -688,4 +717,65 @@ func contains(xs []int, x int) bool {
 		}
 	}
 	return false
+}
+
+// ---- resharing (the orchestration that internal/core performs around the beacon handler, re-implemented by the harness) ----
+
+// PlanReshare builds the next epoch: the nodes at positions keep remain (same identity), add joiners are created,
+// threshold t1, transition at the start of round rT.
+func (n *Net) PlanReshare(keep []int, add, t1 int, rT uint64, label string) *fx.Net {
+	var epochKeep []int
+	for _, pos := range keep {
+		addr := n.Nodes[pos].Addr
+		for i, p := range n.Live.Pairs {
+			if p.Public.Addr == addr {
+				epochKeep = append(epochKeep, i)
+			}
+		}
+	}
+	tt := n.timeOfRound(rT).Int64()
+	return n.Live.Reshare(fx.ReshareOpts{Keep: epochKeep, Add: add, T: t1, Transition: tt, Label: label})
+}
+
+// epochPos returns the position of addr inside epoch e, or -1.
+func epochPos(e *fx.Net, addr string) int {
+	for i, p := range e.Pairs {
+		if p.Public.Addr == addr {
+			return i
+		}
+	}
+	return -1
+}
+
+// SwitchRemainer hands the new share and group to a running node (what core's transitionToNext does).
+func (n *Net) SwitchRemainer(nd *Node, next *fx.Net) error {
+	i := epochPos(next, nd.Addr)
+	if i < 0 {
+		return fmt.Errorf("%s is not in the next epoch", nd.Addr)
+	}
+	nd.H.TransitionNewGroup(context.Background(), next.Shares[i], next.Group)
+	nd.Share, nd.Group = next.Shares[i], next.Group
+	return nil
+}
+
+// AddJoiner creates and starts a node that is new in epoch `next` (what core's joinNetwork does): it syncs with the
+// previous group until the transition and then takes part.
+func (n *Net) AddJoiner(next *fx.Net, i int, prevGroup *key.Group, clockOf *Node) (*Node, error) {
+	nd, err := n.newNode(len(n.Nodes), next, i, n.Cfg.Backend)
+	if err != nil {
+		return nil, err
+	}
+	// same wall clock as the rest of the network
+	nd.Clock = clock.NewFakeClockAt(clockOf.Clock.Now())
+	n.mu.Lock()
+	n.Nodes = append(n.Nodes, nd)
+	n.mu.Unlock()
+	if err := nd.Boot(true); err != nil {
+		return nil, err
+	}
+	if err := nd.H.Transition(context.Background(), prevGroup); err != nil {
+		return nil, err
+	}
+	n.pause()
+	return nd, nil
 }
